@@ -308,6 +308,8 @@ def mat(v):
         return complex(v[1], v[2])
     if t == "t":
         return tuple(mat(x) for x in v[1])
+    if t == "it":
+        return iter([mat(x) for x in v[1]])  # a lazy, one-shot sequence without len()
     if t == "l":
         return [mat(x) for x in v[1]]
     raise ValueError(f"bad value descriptor {v!r}")
@@ -392,6 +394,6 @@ def all_uids(vs):
     for v in vs:
         if v[0] in ("I", "A", "G"):
             out.append(v[2])
-        elif v[0] in ("t", "l"):
+        elif v[0] in ("t", "l", "it"):
             out.extend(all_uids(v[1]))
     return out
